@@ -270,6 +270,9 @@ def gen_case(rng):
     hot_a = rng.sample(range(len(ATTRS)), rng.choice([1, 2, 3]))
     steps = []
     counter = itertools.count(10)
+    if rng.random() < 0.8:     # most histories start by loading the hot instances (reads need them in the identity map)
+        steps.append({'w': [], 'op': {'k': 'fetch', 'ids': sorted(hot_c), 'cols': NONLAZY} if rng.random() < 0.7 else
+                                     {'k': 'fetch', 'ids': sorted(hot_c), 'sql': True, 'cols': sorted(rng.sample(range(len(ATTRS)), rng.choice([2, 3, 5])))}})
     for _ in range(rng.choice([3, 5, 7, 9, 12])):
         w = []
         if rng.random() < 0.55:
